@@ -975,6 +975,26 @@ class Engine:
                     continue
                 g = self.spec_eval(cond, {**old, '__old__': old})
                 self.oblige('raises-iff', 'normal exit although {} is promised when [{}]'.format(exc, cond), znot(toz(g)) if not isinstance(g, bool) else (not g), node.lineno)
+            # frame of the function: callers havoc exactly the fields listed under `modifies` (and streams handed over); everything else
+            # reachable from the arguments must leave the function as it entered it
+            declared = set()
+            declared_names = set()
+            for m in c.get('modifies', []):
+                tn = ast.parse(m, mode='eval').body
+                if isinstance(tn, ast.Name):
+                    declared_names.add(tn.id)      # a list argument changed in place (such a contract cannot be used at call sites: Unsupported there)
+                if isinstance(tn, ast.Attribute):
+                    try:
+                        o = self.eval(tn.value, dict(entry))
+                    except Exception:       # noqa
+                        continue
+                    declared.add((id(o), tn.attr))
+            fresh_objs = {pn for pn, ty in c.get('params', {}).items() if isinstance(ty, str) and ty.startswith('newobj:')}
+            vals = {k: (v, old[k]) for k, v in entry.items() if k in old and k not in fresh_objs and k not in declared_names and not k.startswith('_')}
+            badf = self._frame_diff(vals, declared, set(), entry, skip_sinks=True)
+            if badf:
+                self.oblige('frame', 'the function changes `{}` of its arguments but the contract does not list it under `modifies`: '
+                            'a caller would go on with the old value'.format(badf), False, node.lineno, decisive=False)
             for h in c.get('post_hints', []):         # ghost lemma steps before the postconditions: proved (auxiliary), then available
                 try:
                     self.oblige('hint', h, self.spec_eval(h, post_env), node.lineno, decisive=False)
@@ -1507,10 +1527,17 @@ class Engine:
         through a callee contract's `modifies`, an inlined helper, an alias - while the loop contract does not say so would let the
         code AFTER the loop see the pre-loop value: unsound.  Reported as an auxiliary failure of the function."""
         declared, vals, inplace = snap
+        bad = self._frame_diff(vals, declared, inplace, env)
+        if bad:
+            self.oblige('frame', 'loop #{}: the body changes `{}` but the loop contract does not declare it (modifies_objects / an assigned name): '
+                        'the state after the loop would keep the old value'.format(k, bad), False, line, decisive=False)
+
+    def _frame_diff(self, vals, declared, inplace, env, skip_sinks=False):
+        """path of the first value among `vals` = {name: (object, snapshot)} that is no longer the identical term, else None"""
         seen = set()
 
         def same(cur, old, path):
-            if cur is old or id(cur) in inplace:
+            if cur is old or id(cur) in inplace or (skip_sinks and isinstance(cur, VSink)):
                 return None
             key = (id(cur), id(old))
             if key in seen:
@@ -1553,9 +1580,8 @@ class Engine:
                 continue            # re-bound in the body: a name the syntactic scan havocs (or a fresh binding): not a mutation of the old value
             bad = same(obj, old, name)
             if bad:
-                self.oblige('frame', 'loop #{}: the body changes `{}` but the loop contract does not declare it (modifies_objects / an assigned name): '
-                            'the state after the loop would keep the old value'.format(k, bad), False, line, decisive=False)
-                return
+                return bad
+        return None
 
     def havoc_object(self, o, fields=None):
         for f in list(o.fields):
@@ -3376,29 +3402,44 @@ class Engine:
         for pn, ty in c.get('params', {}).items():
             if ty == 'sink' and isinstance(env.get(pn), VSink):
                 env[pn].trace = self.fresh('{}_trace'.format(pn), specs.CSeq)       # a stream handed to a callee: written by it
+        def havoc_frame():
+            # frame: havoc what the callee may modify
+            for m in c.get('modifies', []):
+                tnode = ast.parse(m, mode='eval').body
+                if isinstance(tnode, ast.Attribute):
+                    o = self.eval(tnode.value, env)
+                    o.fields[tnode.attr] = self.havoc_value(m, o.fields[tnode.attr])
+                else:
+                    raise Unsupported('modifies target ' + m)
+
+        def raise_exit(exc):
+            # the callee may have changed what it is allowed to change BEFORE it raised: the frame is havoced on this exit too, and
+            # only what the contract promises for exceptional exits (`ensures_on_raise`) is known about it
+            havoc_frame()
+            pe = dict(env)
+            pe['__old__'] = old
+            for ens in c.get('ensures_on_raise', []):
+                try:
+                    self.assume(toz(self.spec_eval(ens, pe)))
+                except SpecError:
+                    pass
+            raise PyExc(exc, node.lineno)
         # exceptional exits
         for exc, cond in c.get('raises', {}).items():
             if cond is None:
                 if self.choose(2) == 1:
-                    raise PyExc(exc, node.lineno)
+                    raise_exit(exc)
                 continue
             g = self.spec_eval(cond, env)
             if self.branch(toz(g) if not isinstance(g, bool) else g):
-                raise PyExc(exc, node.lineno)
+                raise_exit(exc)
         for exc, cond in c.get('may_raise', {}).items():
             # the callee raises ONLY under this condition, and need not raise even then (e.g. a view that validates its argument in
             # one implementation of the interface and not in another): both outcomes are explored
             g = self.spec_eval(cond, env)
             if self.branch(toz(g) if not isinstance(g, bool) else g) and self.choose(2) == 1:
-                raise PyExc(exc, node.lineno)
-        # frame: havoc what the callee may modify
-        for m in c.get('modifies', []):
-            tnode = ast.parse(m, mode='eval').body
-            if isinstance(tnode, ast.Attribute):
-                o = self.eval(tnode.value, env)
-                o.fields[tnode.attr] = self.havoc_value(m, o.fields[tnode.attr])
-            else:
-                raise Unsupported('modifies target ' + m)
+                raise_exit(exc)
+        havoc_frame()
         res = None
         if 'returns' not in c and 'returns_expr' not in c and any('result' in e for e in c.get('ensures', [])):
             raise Unsupported('contract of {} constrains `result` but declares no `returns` type'.format(key[1]))
